@@ -160,6 +160,23 @@ impl<Args> RepeatTask<Args> {
       seq: 0,
     }
   }
+
+  /// Like `new`, but the first run happens as soon as the task is polled
+  /// (i.e. right after the delay it was scheduled with); only the later runs
+  /// wait for `dur`.
+  pub fn new_immediate(
+    dur: Duration,
+    task: fn(&mut Args, usize) -> bool,
+    args: Args,
+  ) -> Self {
+    Self {
+      fur: Box::pin(futures::future::ready(())),
+      interval: dur,
+      task,
+      args,
+      seq: 0,
+    }
+  }
 }
 
 pub struct SubscribeReturn<T: Subscription>(T);
